@@ -45,6 +45,8 @@ def plan(tier, seed):
         shards.append(("grains", c, 8, 3 if tier == "quick" else 4))
     shards.append(("sparse",))
     shards.append(("parvalues",))
+    for c in range(4):
+        shards.append(("jsonpars", c, 4))
     shards.append(("longlists",))
     k = seed % len(shards)
     return shards[k:] + shards[:k]
@@ -293,6 +295,52 @@ def _run_parvalues(desc):
     return sh
 
 
+JSONPOOL = [("distance", 151234), ("wavelength", 0.2846), ("neg", -7), ("tiny", 1e-300), ("o11", 1), ("negzero", -0.0), ("big", 2 ** 31 + 5),
+            ("fit_tolerance", 0.05), ("cell__a", 4.04), ("cell__b", 5), ("cell_gamma", 90.0), ("cell_lattice_[P,A,B,C,I,F,R]", "F")]
+
+
+def _run_jsonpars(desc):
+    """the json parameter route (AnalysisSchema: a json file pointing at a geometry .par and one .par per phase): an old-style
+    parameter file is split, saved, read back for the phase, and written as an old-style file again - names, values and types are
+    those written; every subset of a 12-parameter pool that holds at least one geometry and one cell parameter"""
+    _, c, nch = desc
+    from ImageD11 import parameters as P
+    sh = Shard()
+    wd = workdir("jp")
+    try:
+        n = len(JSONPOOL)
+        for bits in range(1 + c, 1 << n, nch):
+            d = {JSONPOOL[k][0]: JSONPOOL[k][1] for k in range(n) if (bits >> k) & 1}
+            if not any("cell" in k for k in d) or all("cell" in k for k in d):
+                continue
+            case = {"kind": "jsonpars", "names": sorted(d)}
+            old = os.path.join(wd, "old.par")
+            P.parameters(**d).saveparameters(old)
+            A = P.AnalysisSchema.from_old_pars_file(old, phase_name="ph")
+            A.save(json_path=os.path.join(wd, "pars.json"))
+            got = P.read_par_file(os.path.join(wd, "pars.json"), phase_name="ph").get_parameters()
+            bad = [k for k, v in d.items() if k not in got or type(got[k]) != type(v) or got[k] != v or (isinstance(v, float) and np.signbit(got[k]) != np.signbit(v))]
+            if bad or set(got) - set(d):
+                sh.violation("json-parameters:value-type-or-name", dict(case, name=(bad or sorted(set(got) - set(d)))[0]),
+                             {"read": repr(got.get(bad[0])) if bad else None, "extra": sorted(set(got) - set(d))})
+            else:
+                P.AnalysisSchema.from_json(os.path.join(wd, "pars.json")).to_old_pars_file(os.path.join(wd, "back.par"), phase_name="ph")
+                if open(old).read() != open(os.path.join(wd, "back.par")).read():
+                    sh.violation("json-parameters:old-style-file-not-reproduced", case, {})
+                geo = P.read_par_file(os.path.join(wd, "pars.json")).get_parameters()
+                if any("cell" in k for k in geo) or any(k not in geo for k in d if "cell" not in k):
+                    sh.violation("json-parameters:geometry-without-phase", case, {"names": sorted(geo)})
+            for f_ in os.listdir(wd):
+                os.remove(os.path.join(wd, f_))
+            sh.evaluations += 1
+            sh.nontrivial += 1
+        sh.sample(case, limit=1)
+        sh.outcomes.add("jsonpars")
+    finally:
+        shutil.rmtree(wd, ignore_errors=True)
+    return sh
+
+
 def _run_longlists(desc):
     """grain lists longer than one decimal digit of positions (9..12, 25, 101, 112 grains): same order, same content, text and HDF5,
     two save/load cycles"""
@@ -515,7 +563,7 @@ def _run_sparse(desc):
 
 def run_shard(desc):
     return {"colfile": _run_colfile, "hdf_overwrite": _run_hdf_overwrite, "pars": _run_pars, "grains": _run_grains,
-            "sparse": _run_sparse, "parvalues": _run_parvalues, "longlists": _run_longlists}[desc[0]](desc)
+            "sparse": _run_sparse, "parvalues": _run_parvalues, "jsonpars": _run_jsonpars, "longlists": _run_longlists}[desc[0]](desc)
 
 
 def replay(case):
@@ -535,6 +583,9 @@ def replay(case):
     elif kind == "parvalues":
         r = _run_parvalues(("parvalues",))
         r.violations = [v for v in r.violations if v["case"]["values"] == case["values"]]
+    elif kind == "jsonpars":
+        r = _run_jsonpars(("jsonpars", 0, 1))
+        r.violations = [v for v in r.violations if v["case"]["names"] == case["names"]]
     elif kind == "longlists":
         r = _run_longlists(("longlists",))
         r.violations = [v for v in r.violations if v["case"]["n_grains"] == case["n_grains"]]
